@@ -152,7 +152,11 @@ def step (st : St) (line : String) : St × List String :=
   | ["assemble", id, inc, n] =>
     let ac := assembleChecked (st.getCell id) st.rxn (inc == "1") n.toNat! 1 st.kinTotals
     let a := ac.1
-    (st, [s!"T {if ac.2 then 1 else 0}{entries a.totals.asList}",
+    let all := contribs (st.getCell id) ++ (match st.rxn with
+      | some r => reactionContribs (inc == "1") r n.toNat! 1
+      | none => []) ++ st.kinTotals
+    let g := ofList (all.map fun p => (p.1, absQ p.2))
+    (st, [s!"T {if ac.2 then 1 else 0}{entries a.totals.asList}", s!"G{entries g}",
           "P" ++ String.join (a.pp.map fun x => " " ++ ratStr x.moles),
           "S" ++ String.join (a.ss.map fun x => " " ++ ratStr x.moles)])
   | [jop, b, a, inc, ns, tol, cs, fl] =>
